@@ -55,8 +55,9 @@ def main(mode: str, seed: int) -> list:
     if mode == "game":
         # reveal / un-reveal / compute on the game object itself (C01, C17): a revealed coalition is known with lower = upper = value,
         # an un-revealed one is unknown again, the bounds contain the true value
-        t = table()
-        for comp in ("superadditive", "superadditive_cached"):
+        t_pos = table()
+        t_neg = np.array([float(bin(c).count("1") ** 2 - 9 * bin(c).count("1")) for c in range(N)])      # convex, every value < 0
+        for comp, t in [(c_, t_) for c_ in ("superadditive", "superadditive_cached") for t_ in (t_pos, t_neg)]:
             g = IncompleteCooperativeGame(n, BOUNDS[comp])
             ks = sorted(minimal)
             g.set_known_values([float(t[k]) for k in ks], [Coalition(k) for k in ks])
